@@ -91,13 +91,18 @@ const PROBE: &str = "c15probe";
 
 /// target of every alias the harness creates: records its arguments (the first one is the id of
 /// the creating `alias` call)
+/// a second probe that is registered ONLY while a command is being classified (`kind_of`): when
+/// the `alias` naming it as its target runs, that word is not a command (yet)
+const LATE_PROBE: &str = "c15lateprobe";
+
 #[derive(Clone)]
 struct Probe {
     seen: Rc<RefCell<Vec<Vec<String>>>>,
+    late: bool,
 }
 impl Command for Probe {
     fn name(&self) -> String {
-        PROBE.to_string()
+        if self.late { LATE_PROBE.to_string() } else { PROBE.to_string() }
     }
     fn clone_and_box(&self) -> Box<dyn Command> {
         Box::new(self.clone())
@@ -200,12 +205,19 @@ fn number(ts: &[Tmpl]) -> Vec<SOp> {
         Tmpl::A(None) => SOp::A { args: vec![], id: i },
         Tmpl::A(Some((n, extra))) => {
             let mut args = vec![n.to_string()];
-            if *extra >= 1 {
-                args.push(PROBE.to_string());
+            if *extra >= 3 {
+                // a target word that is not a command when `alias` runs (it is registered only
+                // while the new command is classified): `alias` does not look at its target
+                args.push(LATE_PROBE.to_string());
                 args.push(i.to_string());
-            }
-            if *extra >= 2 {
-                args.push("x".to_string());
+            } else {
+                if *extra >= 1 {
+                    args.push(PROBE.to_string());
+                    args.push(i.to_string());
+                }
+                if *extra >= 2 {
+                    args.push("x".to_string());
+                }
             }
             SOp::A { args, id: i }
         }
@@ -246,6 +258,8 @@ fn regression_templates() -> Vec<Vec<Tmpl>> {
         vec![Tmpl::A(Some(("foo", 1))), Tmpl::F("foo", None, true, true), Tmpl::U(vec!["foo"]), Tmpl::F("foo", None, true, false), Tmpl::D(vec!["foo"])],
         // the same fn line again skips the block; no end of block crashes
         vec![Tmpl::F("foo", Some(3), true, false), Tmpl::F("foo", Some(3), true, false), Tmpl::F("a", Some(7), false, false), Tmpl::D(vec!["a"])],
+        // alias of a word that is not a command (yet / any more)
+        vec![Tmpl::A(Some(("a", 3))), Tmpl::D(vec!["a"]), Tmpl::A(Some(("foo", 4))), Tmpl::D(vec!["foo"]), Tmpl::R(vec!["a"]), Tmpl::A(Some(("b", 4))), Tmpl::D(vec!["b"])],
         // arity
         vec![Tmpl::A(None), Tmpl::A(Some(("a", 0))), Tmpl::A(Some(("a", 2))), Tmpl::U(vec![]), Tmpl::U(vec!["a", "b"]), Tmpl::R(vec![]), Tmpl::R(vec!["a", "b"]), Tmpl::D(vec![]), Tmpl::D(vec!["a", "b"])],
     ]
@@ -264,7 +278,7 @@ fn random_templates(rng: &mut Rng) -> Vec<Tmpl> {
     for _ in 0..n {
         let name = rng.pick_s(&SNAMES);
         let t = match rng.below(20) {
-            0..=5 => Tmpl::A(Some((name, if rng.chance(1, 12) { rng.below(3) } else { 1 }))),
+            0..=5 => Tmpl::A(Some((name, if rng.chance(1, 12) { rng.below(3) } else if rng.chance(1, 5) { 3 + rng.below(2) } else { 1 }))),
             6..=9 => Tmpl::U(vec![name]),
             10..=12 => Tmpl::R(vec![name]),
             13..=14 => Tmpl::D(vec![name]),
@@ -314,7 +328,7 @@ thread_local! {
 fn fresh_context() -> (Context, Rc<RefCell<Vec<Vec<String>>>>) {
     let mut ctx = crate::sdkenv::sdk_context();
     let seen = Rc::new(RefCell::new(vec![]));
-    ctx.commands.set(Box::new(Probe { seen: seen.clone() })).expect("probe");
+    ctx.commands.set(Box::new(Probe { seen: seen.clone(), late: false })).expect("probe");
     (ctx, seen)
 }
 
@@ -327,6 +341,7 @@ fn kind_of(cmd: &Box<dyn Command>, ctx: &Context, seen: &Rc<RefCell<Vec<Vec<Stri
         return format!("n{}", t);
     }
     let mut c2 = ctx.clone();
+    let _ = c2.commands.set(Box::new(Probe { seen: seen.clone(), late: true }));
     let before = seen.borrow().len();
     let instructions = vec![];
     let mut env = crate::sdkenv::quiet_env(None);
